@@ -422,3 +422,28 @@ def c14(ctx):
                                                                 'mzd_ple', 'mzd_pluq', '_mzd_apply_p_right_even', 'mzp_init', 'mzp_free', 'mzp_init_window',
                                                                 'mzp_free_window', 'mzp_copy', 'm4ri_mmc_malloc', 'm4ri_mmc_free', 'm4ri_mmc_cleanup'}, rule='E1-alloc')))
     return out
+
+
+@prop('C16', level='other',
+      explanation=('Race freedom of every OpenMP region, decided in the OpenMP configurations (which the pinned suite never compiles): H1 - in each of '
+                   'the 7 `parallel for` loops everything written is private, body-local, the loop variable, or memory addressed injectively by the '
+                   'loop variable (row r of M, T[z]/L[z]), using the callee write summaries; H2 - the four sections of both multi-core front ends '
+                   'write pairwise disjoint quadrant windows, and each product multiplies blocks at matching positions (C_ij += A_ik * B_kj); A1 - '
+                   'operands shared between sections are read-only; G3 - the block cache is only touched inside omp critical(mmc); G4 - configure '
+                   'switches the header cache off with OpenMP.'),
+      not_decided='bit-equality with the sequential build follows for race-free regions from per-iteration determinism, which is argued, not checked')
+def c16(ctx):
+    from . import omp as H, const_rules as CR, globals_engine as G
+    out = []
+    cfgs = frontend.openmp_configs()
+    if ctx.tier == 'thorough':
+        cfgs = [c for c in frontend.legal_configs() if c['openmp']]
+    for cfg in cfgs:
+        prog = _prog(ctx, cfg)
+        lab = _label(cfg)
+        out.append((lab, H.rule_H1(ctx, prog, lab)))
+        out.append((lab, H.rule_H2(ctx, prog, lab)))
+        out.append((lab, H.rule_G3(ctx, prog, lab)))
+        out.append((lab, CR.rule_A1(ctx, prog, lab)))
+    out.append(('configure.ac', G.rule_G4(ctx)))
+    return out
